@@ -4,8 +4,8 @@ package sim
 // the deviations the property statements list, and the network attacker's tamper operators.
 
 import (
-	"strings"
 	"fmt"
+	"strings"
 	"time"
 )
 
